@@ -54,6 +54,11 @@ def check(ctx):
     from .c15 import _r3 as dup_rule
     ctx.absorb(lambda sub: dup_rule(sub, package(sub.tree)), "R5", only=lambda o: o.key in ("mode string/default", "check_list") or o.outcome == "VIOLATION" and o.key.startswith("mode"))
     ctx.floor("R5", "default-mode comparison", len([o for o in ctx.obs if o.rule == "R5"]), 1)
+    # inside its window a reaction acts: the window lives in the guard of k[i] only; every reaction of the list contributes its
+    # terms to the equations unconditionally (no reaction is dropped from the ODE by a test on its window) -- shared with C01.R2/R3
+    from ..odemodel import model as odemodel
+    from .c01 import reaction_sites
+    reaction_sites(ctx, odemodel(ctx.tree), "R6", "R6")
 
 
 def _r1(ctx):
@@ -433,6 +438,7 @@ FEX = "naunet/templates/cvode/src/naunet_fex.cpp.j2"
 JAC = "naunet/templates/cvode/src/naunet_jac.cpp.j2"
 RATES = "naunet/templates/cvode/src/naunet_rates.cpp.j2"
 MUTANTS = [
+    {"name": "ode-skips-empty-window", "file": "naunet/templateloader.py", "old": "            rspecidx = [species.index(r) for r in react.reactants]\n", "new": "            if react.temp_min > 0.0 and react.temp_max <= react.temp_min:\n                continue\n            rspecidx = [species.index(r) for r in react.reactants]\n", "rules": ["R6"]},
     {"name": "default-duplicates-by-hash", "file": "naunet/network.py", "old": "        check_list = reactions\n", "new": "        check_list = [hash(r) for r in reactions]\n", "rules": ["R5"]},
     {"name": "lower-strict", "file": T, "old": 'f"Tgas>={r.temp_min}"', "new": 'f"Tgas>{r.temp_min}"', "rules": ["R1"]},
     {"name": "upper-inclusive", "file": T, "old": 'f"Tgas<{r.temp_max}"', "new": 'f"Tgas<={r.temp_max}"', "rules": ["R1"]},
